@@ -72,7 +72,7 @@ def extract_json(body, schema):
     """Extract JSON from a body and validate with the provided schema."""
     try:
         data = jsonutils.loads(body)
-    except ValueError as exc:
+    except (ValueError, RecursionError) as exc:
         raise webob.exc.HTTPBadRequest(
             'Malformed JSON: %(error)s' % {'error': exc},
             json_formatter=json_error_formatter)
